@@ -159,6 +159,9 @@ def gen_pattern_spec(rng, depth=0, small=False):
     return (kind, [gen_pattern_spec(rng, depth + 1, small) for _ in range(n)])
 
 
+CTOR_MISMATCH = []
+
+
 def build_py(spec):
     _, _, bd, _ = _mods()
     k = spec[0]
@@ -168,8 +171,24 @@ def build_py(spec):
         _, h, w, vals, d, dis, sym, move, initial = spec
         if isinstance(dis, list):
             dis = [tuple(p) for p in dis]
-        return bd.ArrayBuilder2D(h, w, list(vals), d, disallow_adjacent=dis, symmetry=sym,
-                                 initial=copy.deepcopy(initial), use_move=move)
+        # options that have their documented default value are OMITTED from the call, so the defaults themselves are under test
+        kw = {}
+        if dis is not False:
+            kw["disallow_adjacent"] = dis
+        if sym is not False:
+            kw["symmetry"] = sym
+        if initial is not None:
+            kw["initial"] = copy.deepcopy(initial)
+        if move is not False:
+            kw["use_move"] = move
+        b = bd.ArrayBuilder2D(h, w, list(vals), d, **kw)
+        want_dis = [(-1, 0), (1, 0), (0, -1), (0, 1)] if dis is True else ([] if dis is False else list(dis))
+        got = (list(b.disallow_adjacent), b.symmetry, b.use_move, b.initial_problem is None)
+        if got != (want_dis, sym, move, initial is None):
+            CTOR_MISMATCH.append("ArrayBuilder2D(%d, %d, %r, %r%s) has (disallow_adjacent, symmetry, use_move, no initial) = %r, the "
+                                 "call means %r" % (h, w, list(vals), d, "".join(", %s=%r" % kv for kv in kw.items() if kv[0] != "initial"),
+                                                   got, (want_dis, sym, move, initial is None)))
+        return b
     if k == "C":
         return spec[1]
     items = [build_py(s) for s in spec[1]]
@@ -636,12 +655,21 @@ def real_generate(pat, mock, seed, pyseed):
     sr.use_deterministic_prng(True, seed)
     try:
         try:
-            res = gc.generate_problem(
-                solver, builder_pattern=pat, score=score, uniqueness=uniqueness,
-                clue_penalty=None if mock.pen is None else penalty,
-                pretest=None if mock.pre is None else pretest,
-                initial_temperature=mock.init_temp, temperature_decay=mock.decay,
-                max_steps=mock.max_steps, solve_initial_problem=mock.solve_initial)
+            # arguments that have their documented default value are omitted, so the defaults themselves are under test
+            kw = {}
+            if mock.pen is not None:
+                kw["clue_penalty"] = penalty
+            if mock.pre is not None:
+                kw["pretest"] = pretest
+            if mock.init_temp != 5.0:
+                kw["initial_temperature"] = mock.init_temp
+            if mock.decay != 0.995:
+                kw["temperature_decay"] = mock.decay
+            if mock.max_steps is not None:
+                kw["max_steps"] = mock.max_steps
+            if mock.solve_initial:
+                kw["solve_initial_problem"] = True
+            res = gc.generate_problem(solver, builder_pattern=pat, score=score, uniqueness=uniqueness, **kw)
             nxt = dr._rng.next()
             out = "(ok (%s %s) %d)" % ("N" if res is None else sx(prob_sx(pat, res)), sx([t[2] for t in trace]), nxt)
         except Exception as e:
@@ -796,6 +824,13 @@ def correspond(ctx):
     corr_builders(ctx, drv)
     corr_generate(ctx, drv)
     corr_segmentation(ctx)
+    for what in sorted(set(CTOR_MISMATCH))[:3]:
+        ctx.count("builder-constructor-mismatch")
+        ctx.disagree("builder-constructor", what=what)
+        if not hasattr(ctx, "concrete"):
+            ctx.concrete = []
+        ctx.concrete.append(Finding("builder:constructor-defaults", what, {"kind": "ctor", "what": what}))
+    del CTOR_MISMATCH[:]
     if not ctx.quick():
         for f in search(ctx, None):
             ctx.disagree("oracle:" + f.signature, what=f.what[:400])
